@@ -34,16 +34,37 @@ func Date(rank int) time.Time { return Base.Add(time.Duration(rank) * time.Hour)
 
 type Item struct {
 	boltz.BaseExtEntity
-	S     *string
-	N     *int64
-	M     *int32
-	F     *float64
-	B     *bool
-	T     *time.Time
-	Roles []string
-	Boss  *string
-	Peers []string
-	X     *string // child part (xitems), when present
+	S      *string
+	N      *int64
+	M      *int32
+	F      *float64
+	B      *bool
+	T      *time.Time
+	Roles  []string
+	Boss   *string
+	Peers  []string
+	Places []string
+	X      *string // child part (xitems), when present
+}
+
+// Place is the second entity type: the elements of the link set items.places (dotted symbols that cross entity types)
+type Place struct {
+	boltz.BaseExtEntity
+	S *string
+}
+
+func (e *Place) GetEntityType() string { return "places" }
+
+type placeStrategy struct{}
+
+func (placeStrategy) NewEntity() *Place { return &Place{} }
+func (placeStrategy) FillEntity(e *Place, b *boltz.TypedBucket) {
+	e.LoadBaseValues(b)
+	e.S = b.GetString("s")
+}
+func (placeStrategy) PersistEntity(e *Place, ctx *boltz.PersistContext) {
+	e.SetBaseValues(ctx)
+	ctx.SetStringP("s", e.S)
 }
 
 func (e *Item) GetEntityType() string { return Type }
@@ -91,6 +112,7 @@ func (strategy) PersistEntity(e *Item, ctx *boltz.PersistContext) {
 	ctx.SetStringList("roles", e.Roles)
 	ctx.SetStringP("boss", e.Boss)
 	ctx.SetLinkedIds("peers", e.Peers)
+	ctx.SetLinkedIds("places", e.Places)
 }
 
 type XItem struct {
@@ -116,6 +138,7 @@ type Store struct {
 	Child    *boltz.BaseStore[*XItem]
 	ChildExt *boltz.BaseStore[*XItem]
 	Links    boltz.LinkCollection
+	Places   *boltz.BaseStore[*Place]
 }
 
 func New() *Store { return NewPublic(nil) }
@@ -160,6 +183,28 @@ func NewPublic(pub func(name string) bool) *Store {
 	peerOf := st.AddFkSetSymbol("peerOf", st)
 	st.Links = st.AddLinkCollection(peers, peerOf)
 	_ = st.AddLinkCollection(peerOf, peers)
+	// the second entity type and the link set leading to it
+	st.Places = boltz.NewBaseStore(boltz.StoreDefinition[*Place]{
+		EntityType:      "places",
+		EntityStrategy:  placeStrategy{},
+		BasePath:        []string{"q"},
+		EntityNotFoundF: func(id string) error { return boltz.NewNotFoundError("places", "id", id) },
+	})
+	st.Places.InitImpl(st.Places)
+	if pub == nil {
+		st.Places.AddExtEntitySymbols()
+	} else {
+		st.Places.AddIdSymbol("id", ast.NodeTypeString)
+	}
+	if pub == nil || pub("s") {
+		st.Places.AddSymbol("s", ast.NodeTypeString)
+	} else {
+		st.Places.AddEntitySymbol(st.Places.NewEntitySymbol("s", ast.NodeTypeString))
+	}
+	places := st.AddFkSetSymbol("places", st.Places)
+	placeItems := st.Places.AddFkSetSymbol("items", st)
+	_ = st.AddLinkCollection(places, placeItems)
+	_ = st.Places.AddLinkCollection(placeItems, places)
 
 	mk := func(ext bool, path string) *boltz.BaseStore[*XItem] {
 		c := boltz.NewBaseStore(boltz.StoreDefinition[*XItem]{
@@ -185,7 +230,7 @@ func NewPublic(pub func(name string) bool) *Store {
 	st.Child = mk(false, "x")
 	st.ChildExt = mk(true, "xe")
 	if pub != nil {
-		for _, name := range []string{"roles", "peers"} {
+		for _, name := range []string{"roles", "peers", "places"} {
 			if pub(name) {
 				st.MakeSymbolPublic(name)
 			}
@@ -201,6 +246,7 @@ func (st *Store) Init(db boltz.Db) error {
 	return db.Update(nil, func(ctx boltz.MutateContext) error {
 		h := &errorz.ErrorHolderImpl{}
 		st.InitializeIndexes(ctx.Tx(), h)
+		st.Places.InitializeIndexes(ctx.Tx(), h)
 		return h.GetError()
 	})
 }
@@ -237,6 +283,14 @@ func (st *Store) Load(db boltz.Db, ds map[string]any, childOf func(id string) bo
 	nm, _ := ds["names"].(map[string]any)
 	for id, u := range nm {
 		names[id] = Str(u.([]any))
+	}
+	pl, _ := ds["pl"].(map[string]any)
+	plRows, _ := pl["row"].(map[string]any)
+	plOf, _ := pl["of"].(map[string]any)
+	if pn, ok := pl["names"].(map[string]any); ok {
+		for id, u := range pn {
+			names[id] = Str(u.([]any))
+		}
 	}
 	ids := make([]string, 0, len(rows))
 	for id := range rows {
@@ -299,6 +353,11 @@ func (st *Store) Load(db boltz.Db, ds map[string]any, childOf func(id string) bo
 					e.Peers = append(e.Peers, names[p.(string)])
 				}
 			}
+			if ps, ok := plOf[id].([]any); ok {
+				for _, p := range ps {
+					e.Places = append(e.Places, names[p.(string)])
+				}
+			}
 		}
 		return e
 	}
@@ -322,9 +381,22 @@ func (st *Store) Load(db boltz.Db, ds map[string]any, childOf func(id string) bo
 				return fmt.Errorf("create %s: %w", id, err)
 			}
 		}
+		for pid, r := range plRows {
+			p := &Place{}
+			p.Id = names[pid]
+			m, _ := r.(map[string]any)
+			sv, _ := m["s"].(map[string]any)
+			if x := TV(sv).Go(); x != nil {
+				s := x.(string)
+				p.S = &s
+			}
+			if err := st.Places.Create(ctx, p); err != nil {
+				return fmt.Errorf("create place %s: %w", pid, err)
+			}
+		}
 		for _, id := range ids {
 			e := mkItem(id, true)
-			if err := st.Update(ctx, e, boltz.MapFieldChecker{"boss": struct{}{}, "peers": struct{}{}}); err != nil {
+			if err := st.Update(ctx, e, boltz.MapFieldChecker{"boss": struct{}{}, "peers": struct{}{}, "places": struct{}{}}); err != nil {
 				return fmt.Errorf("link %s: %w", id, err)
 			}
 		}
@@ -333,7 +405,7 @@ func (st *Store) Load(db boltz.Db, ds map[string]any, childOf func(id string) bo
 		k := 0
 		for _, id := range ids {
 			eb := st.GetEntityBucket(ctx.Tx(), []byte(names[id]))
-			for _, set := range []string{"roles", "peers"} {
+			for _, set := range []string{"roles", "peers", "places"} {
 				if sb := eb.GetBucket(set); sb != nil {
 					if key, _ := sb.Cursor().First(); key == nil {
 						if k%2 == 0 {
